@@ -13,6 +13,7 @@ import (
 
 	"github.com/dtn7/dtn7-go/pkg/bpv7"
 	"github.com/dtn7/dtn7-go/pkg/cla"
+	"github.com/dtn7/dtn7-go/pkg/verifhook"
 )
 
 type ProphetConfig struct {
@@ -404,6 +405,7 @@ func (prophet *Prophet) ReportFailure(bp BundleDescriptor, sender cla.Convergenc
 			break
 		}
 	}
+	verifhook.At("routing.prophet.reportfailure.rmw")
 
 	bundleItem.Properties["routing/prophet/sent"] = sentEids
 
